@@ -702,18 +702,30 @@ def _eig_groups(e, tol=1e-9):
     return [(lam, g[1]) for lam, g in zip(lams, groups)], gap, within
 
 
-def eigvec_matrix_asymmetric(case):
+def mode1_rows_not_columns(case):
     """known-finding predicate (C06-F5).
 
     Povm.generate_mprocess(mode_backaction=1) pairs eigenvalue i with ROW i of the eigenvector matrix and forms
     v v^T without conjugation; that is the spectral projector only when the matrix LAPACK returns is real and
-    symmetric.  True when, for some element, it is not (the same deterministic eigh call on the same matrix)."""
+    symmetric.  Decided from the model matrices without depending on rounding-level tie breaks:
+      * an element that is not diagonal in the computational basis -> True (a real symmetric eigenvector matrix of a
+        non-diagonal element is an accident of LAPACK's sign convention);
+      * a diagonal element diag(a): the eigenvector matrix is the permutation pi that sorts a, rows give pi^-1, so the
+        weight a_{pi(pi(k))} lands on |k><k|: True when some sorting permutation (ties within 1e-9 in any order) has
+        a_{pi(pi(k))} != a_k."""
+    import itertools
+
     if case.get("sub") != "mode1":
         return False
     for e in povm_matrices(case["povm"]):
-        _, v = np.linalg.eigh(e)
-        if np.max(np.abs(v.imag)) > 1e-12 or np.max(np.abs(v - v.T)) > 1e-12:
+        if np.max(np.abs(e - np.diag(np.diag(e)))) > 1e-12:
             return True
+        a = np.real(np.diag(e))
+        dd = len(a)
+        for pi in itertools.permutations(range(dd)):
+            if all(a[pi[k]] <= a[pi[k + 1]] + 1e-9 for k in range(dd - 1)):
+                if any(abs(a[pi[pi[k]]] - a[k]) > 1e-9 for k in range(dd)):
+                    return True
     return False
 
 
@@ -868,8 +880,8 @@ def check_instrument(case, ctx):
                 hs = hs + lam * rm.hs_from_map(basis, lambda a, p=p: p @ a @ p)
             ref_hss.append(np.real(hs))
         ctx.label("degenerate-spectrum" if degenerate else "simple-spectrum")
-        asym = eigvec_matrix_asymmetric(case)
-        ctx.label("eigvec-matrix:" + ("asymmetric" if asym else "real-symmetric"))
+        asym = mode1_rows_not_columns(case)
+        ctx.label("eigvec-matrix:" + ("rows-differ-from-columns" if asym else "real-symmetric-permutation"))
         try:
             mp = qp.generate_mprocess(1)
         except ValueError as ex:
